@@ -302,16 +302,27 @@ def run_base_capa(
     opt_anomaly_starts = np.repeat(np.nan, n)
     starts = np.array([], dtype=int)
 
-    ts = np.arange(min_segment_length - 1, n)
+    ts = np.arange(n)
     for t in ts:
         # Collective anomalies
         t_array = np.array([t])
-        starts = np.concatenate((starts, t_array - min_segment_length + 1))
-        ends = np.repeat(t + 1, len(starts))
-        collective_savings = collective_saving.evaluate(np.column_stack((starts, ends)))
-        opt_collective_saving, opt_start, candidate_savings = optimise_savings(
-            starts, opt_savings, collective_savings, collective_alpha, collective_betas
-        )
+        if t >= min_segment_length - 1:
+            starts = np.concatenate((starts, t_array - min_segment_length + 1))
+            ends = np.repeat(t + 1, len(starts))
+            collective_savings = collective_saving.evaluate(
+                np.column_stack((starts, ends))
+            )
+            opt_collective_saving, opt_start, candidate_savings = optimise_savings(
+                starts,
+                opt_savings,
+                collective_savings,
+                collective_alpha,
+                collective_betas,
+            )
+        else:
+            # Too few samples for a collective anomaly, only a point anomaly can end here.
+            opt_collective_saving, opt_start = -np.inf, t
+            candidate_savings = np.zeros(0)
 
         # Point anomalies
         point_savings = point_saving.evaluate(np.column_stack((t_array, t_array + 1)))
